@@ -144,35 +144,35 @@ type polConn struct {
 type polCase struct {
 	Prop string `json:"prop"`
 	// access controls
-	AuthUser  string   `json:"auth_user,omitempty"`
-	AuthPass  string   `json:"auth_pass,omitempty"`
-	Deny      []string `json:"deny,omitempty"`
-	Localhost string   `json:"localhost"`
-	TimeFrame []string `json:"time_frame,omitempty"`
+	AuthUser  string        `json:"auth_user,omitempty"`
+	AuthPass  string        `json:"auth_pass,omitempty"`
+	Deny      []string      `json:"deny,omitempty"`
+	Localhost string        `json:"localhost"`
+	TimeFrame []string      `json:"time_frame,omitempty"`
 	Start     time.Duration `json:"start"` // clock offset from Sat 2000-01-01 00:00 before anything starts
 	// routing
-	Upstream  string   `json:"upstream,omitempty"` // URL
-	PAC       string   `json:"pac,omitempty"`
-	Direct    []string `json:"direct,omitempty"`
-	ConnectTo []string `json:"connect_to,omitempty"`
-	Creds     []string `json:"creds,omitempty"`
-	MITM      bool     `json:"mitm"`
-	ProxyName string   `json:"proxy_name,omitempty"`
+	Upstream  string    `json:"upstream,omitempty"` // URL
+	PAC       string    `json:"pac,omitempty"`
+	Direct    []string  `json:"direct,omitempty"`
+	ConnectTo []string  `json:"connect_to,omitempty"`
+	Creds     []string  `json:"creds,omitempty"`
+	MITM      bool      `json:"mitm"`
+	ProxyName string    `json:"proxy_name,omitempty"`
 	Conns     []polConn `json:"conns"`
-	WOne      int      `json:"w_one"`
-	WRand     int      `json:"w_rand"`
+	WOne      int       `json:"w_one"`
+	WRand     int       `json:"w_rand"`
 }
 
 // arrival is one request (or tunnel/SOCKS establishment) seen by a recorder node.
 type arrival struct {
-	Token   string
-	Node    string
-	How     string // plain | connect | tunnel | socks
-	Msg     *h1.Msg
-	Target  string // CONNECT / SOCKS authority (for connect, tunnel, socks)
-	Local   string // listener address that took the connection
-	TLS     bool
-	From    string // remote address
+	Token                string
+	Node                 string
+	How                  string // plain | connect | tunnel | socks
+	Msg                  *h1.Msg
+	Target               string // CONNECT / SOCKS authority (for connect, tunnel, socks)
+	Local                string // listener address that took the connection
+	TLS                  bool
+	From                 string // remote address
 	SocksUser, SocksPass string
 }
 
